@@ -345,7 +345,7 @@ func (g *Gen) Ext() Step {
 		return Step{Op: "sysmeta.delete", Key: g.pick([]string{"k1", "k2", "virtual-ips"})}
 	case 8:
 		if simkit.Chance(r, 70) {
-			s := Step{Op: "fedstate.set", Name: g.pick([]string{"dc1", "dc2"}), N: int64(r.IntN(50))}
+			s := Step{Op: "fedstate.set", Name: g.pick([]string{"dc1", "dc2"}), N: int64(r.IntN(50)), Flag: simkit.Chance(r, 20)}
 			if simkit.Chance(r, 60) {
 				s.List = []string{"gw1"}
 			}
@@ -373,4 +373,30 @@ func (g *Gen) Ext() Step {
 		}
 		return s
 	}
+}
+
+// PeerSecretRotation: the secret handshake of an accepting peering run twice, so that at the
+// end the peering holds an active and a pending stream secret at once; the last promotion
+// then frees the first active secret.
+func (g *Gen) PeerSecretRotation() []Step {
+	pid := 1 + g.R.IntN(2)
+	id := PeerUUID(pid)
+	a, b := int64(pid), int64(pid+10)
+	out := []Step{{Op: "peer.write", ID: id, Name: []string{"", "peerA", "peerB"}[pid], N: 1, Text: PeerUUID(10 + pid), M: a}}
+	for _, st := range []Step{
+		{Op: "peer.secrets", ID: id, Text: "generate", M: a},
+		{Op: "peer.secrets", ID: id, Text: "exchange", M: a},
+		{Op: "peer.secrets", ID: id, Text: "promote", M: a},
+		{Op: "peer.secrets", ID: id, Text: "generate", M: b},
+		{Op: "peer.secrets", ID: id, Text: "exchange", M: b},
+	} {
+		out = append(out, st)
+		if simkit.Chance(g.R, 25) {
+			out = append(out, g.Next())
+		}
+	}
+	if simkit.Chance(g.R, 80) {
+		out = append(out, Step{Op: "peer.secrets", ID: id, Text: "promote", M: b})
+	}
+	return out
 }
